@@ -74,4 +74,15 @@ def generate() -> dict:
             info["rewritten"].append("Preds")
         if write_if_changed("PredsEq", ["CM.Generated.Preds"], t):
             info["rewritten"].append("PredsEq")
+    try:
+        import py2lean_tables
+    except ImportError:
+        py2lean_tables = None
+    if py2lean_tables is not None:
+        d, t, i = py2lean_tables.block()
+        info.update(i)
+        if write_if_changed("Tables", ["CM.Model.Prec"], d):
+            info["rewritten"].append("Tables")
+        if write_if_changed("TablesEq", ["CM.Generated.Tables"], t):
+            info["rewritten"].append("TablesEq")
     return info
